@@ -86,7 +86,8 @@ namespace TAO_PEGTL_NAMESPACE::uri
    struct reg_name : star< sor< unreserved, pct_encoded, sub_delims > > {};
 
    struct port : star< abnf::DIGIT > {};
-   struct host : sor< IP_literal, IPv4address, reg_name > {};
+   // An IPv4address is only the host when no further reg-name character follows, e.g. "1.2.3.4.5" and "1.2.3.4abc" are reg-names.
+   struct host : sor< IP_literal, seq< at< IPv4address, not_at< sor< unreserved, pct_encoded, sub_delims > > >, IPv4address >, reg_name > {};
    struct userinfo : star< sor< unreserved, pct_encoded, sub_delims, colon > > {};
    struct opt_userinfo : opt< userinfo, one< '@' > > {};
    struct authority : seq< opt_userinfo, host, opt< colon, port > > {};
